@@ -177,6 +177,57 @@ def spec_judge(ctx, lines, impls):
             ctx.fail_inputs.append(("spec-judge", lines[i], impls[i], r, "the serialised text denotes a different value under RFC 8259"))
 
 
+def gen_esc_lines(rng, n):
+    ls = []
+    specials = [0x00, 0x08, 0x09, 0x0A, 0x0C, 0x0D, 0x1F, 0x20, 0x22, 0x2F, 0x5C, 0x7E, 0x7F, 0x80, 0xFF, 0x7FF, 0x800, 0xD7FF, 0xE000, 0xFFFD, 0xFFFE, 0xFFFF,
+                0x10000, 0x10FFFF]
+    for cp in specials:
+        for ea in (0, 1):
+            for es in (0, 1):
+                ls.append("jt esc %d %d x%s" % (ea, es, chr(cp).encode("utf-8").hex()))
+    for _ in range(n):
+        cps = [rng.choice(specials) if rng.random() < 0.5 else rng.choice([rng.randrange(0x80), rng.randrange(0x80, 0xD800), rng.randrange(0xE000, 0x110000)])
+               for _ in range(rng.randint(0, 8))]
+        s = "".join(chr(c) for c in cps).encode("utf-8")
+        if rng.random() < 0.1 and s:
+            i = rng.randrange(len(s))
+            s = s[:i] + bytes([rng.choice([0x80, 0xC0, 0xC1, 0xE0, 0xED, 0xF5, 0xFF])]) + s[i + 1:]      # malformed UTF-8
+        ls.append("jt esc %d %d x%s" % (rng.getrandbits(1), rng.getrandbits(1), s.hex()))
+    return ls
+
+
+def esc_oracle(line, impl, model, ref=None):
+    """the escaped text is a legal JSON string body that denotes the original string (judged by the Lean reference reader)"""
+    t = line.split()
+    s = bytes.fromhex(t[4][1:])
+    try:
+        s.decode("utf-8")
+        valid = True
+    except UnicodeDecodeError:
+        valid = False
+    if impl == "err":
+        return "escape_string refused a valid UTF-8 string" if (valid and t[2] == "1") or (valid and any(c < 0x20 or c == 0x7F for c in s)) else None
+    if not valid:
+        return None
+    if ref is None:
+        return None
+    body = bytes.fromhex(impl.split()[1][1:])
+    if any(c < 0x20 for c in body) or b'"' in body.replace(b'\\"', b""):
+        return "the escaped text contains a raw control character or quote"
+    if t[2] == "1" and any(c >= 0x80 for c in body):
+        return "escape_all_non_ascii left a non-ASCII byte"
+    if ref != "ok x" + s.hex():
+        return "the escaped text does not denote the original string (reads back as %s)" % ref
+    return None
+
+
+def esc_ref_lines(ctx, lines):
+    """second phase: the reference reader applied to what the real code printed"""
+    ok, exe, _ = vlib.build_harness(HARNESS)
+    impl, _ = vlib.run_impl(exe, lines)
+    return ["jt unesc " + o.split()[1] if o.startswith("ok x") else "" for o in impl]
+
+
 def nontrivial(line, impl):
     return line if ("[" in line or "{" in line) and "s" in line else None
 
@@ -184,6 +235,8 @@ def nontrivial(line, impl):
 def streams(ctx, rng, scale):
     lw = vlib.witness_lines(PROP)
     ctx.correspond("finding-witnesses", HARNESS, lw, oracle, nontrivial, want_model=False)
+    le = gen_esc_lines(rng, 1500 * scale)
+    ctx.correspond("escape_string", HARNESS, le, esc_oracle, nontrivial, ref_lines=esc_ref_lines(ctx, le))
     ls = gen_lines(rng, 2500 * scale)
     st = ctx.correspond("dump-roundtrip", HARNESS, ls, oracle, nontrivial, want_model=False)
     if "_impl" in st:
